@@ -1,6 +1,7 @@
 import GnoVerif.Proofs.C20Wire
 import GnoVerif.Proofs.C20Val
 import GnoVerif.Proofs.C20Witness
+import GnoVerif.Proofs.C20Top
 /-!
 Property C20 — amino encoding is consistent, round-trips and rejects bad input safely.
 
@@ -90,6 +91,73 @@ theorem field_zero_rejected (t : Nat) (ht : t < 8) (rest : Bytes) : decKeyRaw (e
   have : t / 8 = 0 := by omega
   simp [this]
 
+/-! ## the codec: round trip -/
+
+/-- FULL STATEMENT (false on the unchanged tree, see `roundtrip_epoch_counterexample`):
+every value the reflection encoder accepts decodes back to itself. -/
+def roundtrip_statement : Prop :=
+  ∀ (env : Env) (name : Bytes) (v : Val) (bz : Bytes),
+    marshal env name v = .ok bz → unmarshal env name bz = some v
+
+/-- **round trip on the wire-format core**: for every registered struct type and every
+value built from primitives (uvarint / zig-zag / plain varint, fixed32/64, bool, string,
+byte slice, byte array) and structs nested to any depth through non-pointer and pointer
+fields, with amino's zero-value omission:
+`UnmarshalReflect(MarshalReflect(v)) = v`, with the decoder's own fuel.
+NOT covered by this theorem (checked by correspondence only): lists (packed / unpacked /
+nested), interfaces (Any), time / duration, AminoMarshaler reprs, `write_empty`. -/
+theorem roundtrip_partial (env : Env) (hE : envOK env) (name : Bytes) (v : Val) (d : Nat)
+    (hwf : wf env d (.ref name) v = true) (hd : d ≤ env.length + 4) (bz : Bytes)
+    (hm : marshal env name v = .ok bz) (hlen : bz.length < 2 ^ 64) :
+    unmarshal env name bz = some v :=
+  roundtrip_struct env hE name v d hwf hd bz hm hlen
+
+/-- the hypotheses are satisfiable by a non-trivial value: a `tm.BlockID` with a
+nested `PartSetHeader`, one omitted (zero) field and three present ones. -/
+example : envOK envW ∧
+    wf envW 2 (.ref nBlockID) (.struct [.x [1, 2], .struct [.i 0, .x [9]]]) = true ∧
+    marshal envW nBlockID (.struct [.x [1, 2], .struct [.i 0, .x [9]]]) = .ok [0x0a, 2, 1, 2, 0x12, 3, 0x12, 1, 9] ∧
+    unmarshal envW nBlockID [0x0a, 2, 1, 2, 0x12, 3, 0x12, 1, 9] = some (.struct [.x [1, 2], .struct [.i 0, .x [9]]]) :=
+  ⟨envOK_of_b (by decide +kernel), by decide +kernel, by decide +kernel, by decide +kernel⟩
+
+/-- the decoder also consumes exactly its input: the same statement with explicit
+fuel, for any fuel at least `sumFields env + 2 + budget env bz.length`. -/
+theorem roundtrip_partial_any_fuel (env : Env) (hE : envOK env) (name : Bytes) (v : Val) (d : Nat)
+    (hwf : wf env d (.ref name) v = true) (hd : d ≤ env.length + 4) (bz : Bytes)
+    (hm : marshal env name v = .ok bz) (hlen : bz.length < 2 ^ 64)
+    (k : Nat) (hk : sumFields env + 2 + budget env bz.length ≤ k) :
+    unmarshalF k env name bz = some v :=
+  roundtrip_struct_fuel env hE name v d hwf hd bz hm hlen k hk
+
+/-- a value that amino omits from the wire (default, or encoded as the single byte
+0x00) is exactly the zero value the decoder re-creates — inside the fragment.  This is
+the lemma that FAILS once `time.Time` is involved (`roundtrip_epoch_counterexample`). -/
+theorem omitted_value_is_zero (env : Env) (v : Val) (d : Nat) (td : TD) (bs : Bytes)
+    (hwf : wf env d td v = true) (he : enc env td v 0 false false = .ok bs)
+    (hom : isDefault env td v = true ∨ bs = [0]) (hlen : bs.length < 2 ^ 64) (k : Nat) (hk : d ≤ k) :
+    v = zeroVal env k td :=
+  zero_val env v d td bs hwf he hom hlen k hk
+
+/-! ## the codec: rejection -/
+
+/-- whatever is left after the last declared field is rejected (unknown field / trailing bytes). -/
+theorem trailing_field_rejected (env : Env) (k : Nat) (b : UInt8) (bz : Bytes) (last depth : Nat)
+    (acc : List Val) (n : Nat) : decFields env (k + 1) [] (b :: bz) last depth acc n = none :=
+  decFields_trailing_rejected env k b bz last depth acc n
+
+/-- a field whose number does not exceed the last one seen (duplicate / out of order) is rejected. -/
+theorem out_of_order_field_rejected (env : Env) (k : Nat) (f : FieldD) (fs : List FieldD) (bz : Bytes)
+    (last depth : Nat) (acc : List Val) (n : Nat) (t kn : Nat)
+    (hnl : isUnpackedList env f.td = false) (hne : bz ≠ [])
+    (hkey : decKeyRaw bz = some (f.num, t, kn)) (hlast : f.num ≤ last) :
+    decFields env (k + 1) (f :: fs) bz last depth acc n = none :=
+  decFields_out_of_order_rejected env k f fs bz last depth acc n t kn hnl hne hkey hlast
+
+/-- `BlockID{Hash}` twice, and `PartsHeader` before `Hash`: both rejected; trailing garbage too. -/
+example : unmarshal envW nBlockID [0x0a, 1, 7, 0x0a, 1, 8] = none ∧
+    unmarshal envW nBlockID [0x12, 0, 0x0a, 1, 7] = none ∧
+    unmarshal envW nBlockID [0x0a, 1, 7, 0x1a, 0] = none := by decide +kernel
+
 /-! ## findings of the unchanged tree (each replayed on the real code from corpus/C20) -/
 
 /-- FULL STATEMENT (false): whatever the reflect decoder accepts as a struct has its
@@ -144,5 +212,13 @@ theorem roundtrip_epoch_counterexample :
     unmarshal envW nMemPackage bzEpoch = some (vMemPackageAt minTimeSeconds 0) ∧
     vMemPackageAt minTimeSeconds 0 ≠ vMemPackageAt 0 0 := by
   refine ⟨by decide +kernel, by decide +kernel, by decide +kernel⟩
+
+theorem roundtrip_counterexample : ¬ roundtrip_statement := by
+  intro h
+  have h1 := h envW nMemPackage (vMemPackageAt 0 0) bzEpoch (by decide +kernel)
+  have h2 : unmarshal envW nMemPackage bzEpoch = some (vMemPackageAt minTimeSeconds 0) := by decide +kernel
+  rw [h2] at h1
+  have h3 : vMemPackageAt minTimeSeconds 0 ≠ vMemPackageAt 0 0 := by decide +kernel
+  exact h3 (Option.some.inj h1)
 
 end GnoVerif.C20
